@@ -130,6 +130,151 @@ def stub_fidelity():
   return problems
 
 
+def stub_fidelity_random(nscripts=400, seed=20260922):
+  """randomised differential test of the stubs: seeded scripts of non-blocking operations are run against the real
+  stdlib class and against the stub; every returned value and every raised exception type must agree"""
+  import collections
+  import queue
+  import random
+  import threading
+  from . import prims
+  problems = []
+
+  class Item(object):
+    def __init__(self, p, n):
+      self.priority, self.n = p, n
+    def __lt__(self, o):
+      return self.priority < o.priority
+
+  def run_queue(Q, script, maxsize, prio):
+    q = Q(maxsize) if maxsize is not None else Q()
+    log = []
+    n = 0
+    for op in script:
+      try:
+        if op == 'put':
+          n += 1
+          q.put_nowait(Item(n % 3, n) if prio else n)
+          log.append('put')
+        elif op == 'putb':
+          n += 1
+          q.put(Item(n % 3, n) if prio else n, False)
+          log.append('put')
+        elif op == 'get':
+          it = q.get_nowait()
+          log.append(('get', (it.priority, it.n) if prio else it))
+        elif op == 'gett':
+          it = q.get(True, 0.0) if not isinstance(q, prims.SimQueue) else q.get(False)
+          log.append(('get', (it.priority, it.n) if prio else it))
+        elif op == 'qsize':
+          log.append(q.qsize())
+        elif op == 'empty':
+          log.append(q.empty())
+        elif op == 'full':
+          log.append(q.full())
+        elif op == 'done':
+          q.task_done()
+          log.append('done')
+        elif op == 'unfinished':
+          log.append(q.unfinished_tasks)
+      except (queue.Full, queue.Empty, ValueError) as e:
+        log.append(type(e).__name__)
+    return log
+
+  def run_lock(L, script):
+    l = L()
+    log = []
+    for op in script:
+      try:
+        if op == 'acq':
+          log.append(l.acquire(False))
+        elif op == 'acqb':
+          log.append(l.acquire(blocking=False))
+        elif op == 'rel':
+          l.release()
+          log.append('rel')
+      except RuntimeError:
+        log.append('RuntimeError')
+    return log
+
+  def run_event(E, script):
+    e = E()
+    log = []
+    for op in script:
+      if op == 'set':
+        e.set()
+      elif op == 'clear':
+        e.clear()
+      elif op == 'is_set':
+        log.append(e.is_set())
+      elif op == 'wait0':
+        log.append(e.wait(0) if not isinstance(e, prims.SimEvent) or e.is_set() else False)
+    return log
+
+  def run_deque(D, script, maxlen):
+    d = D(maxlen=maxlen)
+    log = []
+    n = 0
+    for op in script:
+      try:
+        n += 1
+        if op == 'append':
+          d.append(n)
+        elif op == 'appendleft':
+          d.appendleft(n)
+        elif op == 'pop':
+          log.append(d.pop())
+        elif op == 'popleft':
+          log.append(d.popleft())
+        elif op == 'rotate':
+          d.rotate(1 if n % 2 else -1)
+        elif op == 'clear':
+          d.clear()
+        elif op == 'len':
+          log.append(len(d))
+        elif op == 'list':
+          log.append(list(d))
+        elif op == 'index0':
+          log.append(d[0])
+        elif op == 'last':
+          log.append(d[-1])
+        elif op == 'maxlen':
+          log.append(d.maxlen)
+      except IndexError:
+        log.append('IndexError')
+    return log
+
+  rng = random.Random(seed)
+  qops = ['put', 'put', 'putb', 'get', 'get', 'gett', 'qsize', 'empty', 'full', 'done', 'unfinished']
+  for i in range(nscripts):
+    script = [rng.choice(qops) for _ in range(rng.randrange(3, 30))]
+    for real, stub, prio, name in ((queue.Queue, prims.SimQueue, False, 'Queue'), (queue.PriorityQueue, prims.SimPriorityQueue, True, 'PriorityQueue')):
+      ms = rng.choice([0, 1, 2, 3, 5])
+      a, b = run_queue(real, script, ms, prio), run_queue(stub, script, ms, prio)
+      if a != b:
+        problems.append('%s(maxsize=%d) differs on %s: real %s stub %s' % (name, ms, script, a, b))
+    if hasattr(prims, 'SimLifoQueue'):
+      a, b = run_queue(queue.LifoQueue, script, 0, False), run_queue(prims.SimLifoQueue, script, 0, False)
+      if a != b:
+        problems.append('LifoQueue differs on %s' % script)
+    ls = [rng.choice(['acq', 'acqb', 'rel', 'rel']) for _ in range(rng.randrange(2, 14))]
+    if run_lock(threading.RLock, ls) != run_lock(prims.SimRLock, ls):
+      problems.append('RLock differs on %s: real %s stub %s' % (ls, run_lock(threading.RLock, ls), run_lock(prims.SimRLock, ls)))
+    if run_lock(threading.Lock, ls) != run_lock(prims.SimLock, ls):
+      problems.append('Lock differs on %s: real %s stub %s' % (ls, run_lock(threading.Lock, ls), run_lock(prims.SimLock, ls)))
+    es = [rng.choice(['set', 'clear', 'is_set', 'wait0']) for _ in range(rng.randrange(2, 12))]
+    if run_event(threading.Event, es) != run_event(prims.SimEvent, es):
+      problems.append('Event differs on %s' % es)
+    ds = [rng.choice(['append', 'append', 'appendleft', 'pop', 'popleft', 'rotate', 'clear', 'len', 'list', 'index0', 'last', 'maxlen'])
+          for _ in range(rng.randrange(3, 30))]
+    ml = rng.choice([None, 1, 2, 3, 5])
+    if run_deque(collections.deque, ds, ml) != run_deque(prims.SimDeque, ds, ml):
+      problems.append('deque(maxlen=%s) differs on %s' % (ml, ds))
+    if len(problems) > 5:
+      break
+  return problems[:6]
+
+
 def main(a):
   pids = available_checks()
   if a.digests:
@@ -139,7 +284,7 @@ def main(a):
     return 0
   n = a.n or (2 if a.quick else 12)
   bad = 0
-  probs = stub_fidelity()
+  probs = stub_fidelity() + stub_fidelity_random(200 if a.quick else 2000)
   for p in probs:
     print('STUB-FIDELITY: ' + p)
     bad += 1
